@@ -23,7 +23,7 @@ WALL_BUDGET = {"quick": 900, "thorough": 5400}
 SAMPLE_RATE = {"quick": 0.02, "thorough": 0.002}
 CHUNK = 32
 STUBS = ["asyncio.open_connection -> FakeNet (refuses a chosen number of reconnect attempts)", "scripted reference console", "loop -> VLoop"]
-OUTSIDE = ["more than one outage per history", "more than three periods of group silence", "outages longer than 3 refused attempts (6 s)"]
+OUTSIDE = ["more than one outage per history (quick) / two (thorough)", "more than three periods of group silence", "outages longer than 3 refused attempts (6 s)"]
 ASSUMPTIONS = ["'immediately' = the two refresh requests are the first frames written on the new connection"]
 
 
@@ -42,6 +42,10 @@ def instances(tier):
     for g in (4, 5):
         out.append({"kind": "half_open", "gen": g, "retries": "zero"})
         out.append({"kind": "half_open", "gen": g, "retries": "some"})
+    if tier == "thorough":
+        for g in (4, 5):
+            for what in ("ac", "zone"):
+                out.append({"kind": "reconnect", "gen": g, "what": what, "second_outage": True})
     n = 2 if tier == "quick" else 3
     out.append({"kind": "group_silence", "gen": 4, "periods": n, "unsolicited": 0})
     out.append({"kind": "group_silence", "gen": 4, "periods": n, "unsolicited": 1})
@@ -140,6 +144,36 @@ def _reconnect(ctx, p):
         else:
             ctx.check(log == [], "refresh.unchanged_is_silent", detail=dict(detail, calls=log))
         ctx.check(not rig.task_failures(), "refresh.requests_first", detail="unhandled exception")
+        if p.get("second_outage"):
+            # a second loss at a free instant after the recovery, the state has moved again (fixed different report):
+            # the refresh happens again and the model converges again
+            t2 = t_drop + 2.0 * refused + 1.5 + ctx.real("t2", 1, 100)
+            state["left"] = 0
+            if p["what"] == "ac":
+                inst.ac_status[1] = (r4.build_ac_status(1, 0, 2, 5, 1, 0, 17, 555, 0) if g.n == 4 else r5.build_ac_status(1, 2, 2, 5, 33, 1, 1, 1, 0, 555, 0))
+            else:
+                inst.zone_status[2] = (r4.build_group_status(2, 3, 0, 7, 1, 1, 9, 1, 555, 1) if g.n == 4 else r5.build_zone_status(2, 3, 0, 7, 33, 1, 555, 1, 1))
+            mark = {}
+
+            def drop2():
+                mark["n"] = len(con.requests)
+                c = rig.net.current()
+                if c is not None:
+                    c.reset()
+
+            rig.loop.vt_call_at(t2, drop2)
+            rig.run(t2 + 1.5)
+            kinds2 = [k for _, k, _ in con.requests[mark.get("n", 0):]]
+            ctx.check(len(rig.net.conns) == 3 and rig.net.max_open <= 1 and sorted(kinds2[:2]) == ["ac_status", "zone_status"], "refresh.requests_first",
+                      detail=dict(detail, second=True, kinds=kinds2, conns=len(rig.net.conns)))
+            if p["what"] == "ac":
+                a1 = rig.ac(1)
+                ctx.check(a1.current_temperature == 5.5 and a1.target_temperature == (17 if g.n == 4 else 13.3), "refresh.model_converges",
+                          detail=dict(detail, second=True, temp=str(a1.current_temperature), target=str(a1.target_temperature)))
+            else:
+                z2 = rig.zone(2)
+                ctx.check(z2.current_damper_percentage == 7 and z2.current_temperature == 5.5, "refresh.model_converges",
+                          detail=dict(detail, second=True, damper=str(z2.current_damper_percentage), temp=str(z2.current_temperature)))
         for lab in expect_labels("quick"):
             ctx.reach(lab)
 
